@@ -13,11 +13,14 @@ MAXQ = 6
 for ng in range(0, MAXQ + 1):
     HARNESSES.append(dict(COMMON, name="depth_hook%d_ng%d" % (MAXQ, ng), entry="h_depth", defines={"NG": ng, "HWLOC_VERIF_SYNTHETIC_MAX_DEPTH": MAXQ}, encoded=PARSE,
                           tiers={"quick": {}, "thorough": {}}, witness=True,
-                          bounds="level table scaled to %d entries by the guarded hook; %d typed Group levels + final PU number, arity digits symbolic (1..2); exhaustive over 0..%d groups" % (MAXQ, ng, MAXQ), cost=10))
+                          bounds="level table scaled to %d entries by the guarded hook; %d typed Group levels + final PU number, concrete arities (the whole run is concrete: CBMC acts as a bounds-checking interpreter of the real parser); exhaustive over 0..%d groups" % (MAXQ, ng, MAXQ), cost=10))
 for ng in (122, 123, 124, 125, 126, 127):
     HARNESSES.append(dict(COMMON, name="depth_real128_ng%d" % ng, entry="h_depth", defines={"NG": ng}, encoded=PARSE, tiers={"thorough": {"unwind": 132, "timeout": 1700}},
                           bounds="the real 128-entry level table; %d typed Group levels + final PU number" % ng, cost=100, fs_array=300, core=(ng in (125, 126))))
-HARNESSES.append(dict(COMMON, name="parse_bytes", entry="h_parse_bytes", encoded=PARSE, checks="safety+", tiers={"quick": {"defines": {"L": 3, "HWLOC_VERIF_SYNTHETIC_MAX_DEPTH": 6}}, "thorough": {"defines": {"L": 5, "HWLOC_VERIF_SYNTHETIC_MAX_DEPTH": 8}}},
+def short_uw(l):
+    d = seed_uw(); d.update({k: l + 2 for k in ("strcmp.0", "strncmp.0", "hwloc__type_match.0", "strchr.0", "strspn.0", "strspn.1", "strcspn.0", "strcspn.1", "vp_strto.0", "vp_strto.1", "strncasecmp.0", "strlen.0",
+                                                 "hwloc_backend_synthetic_init.0", "hwloc_backend_synthetic_init.1", "hwloc_backend_synthetic_init.2", "hwloc_synthetic_parse_attrs.0", "hwloc__osdev_types_sscanf.0")}); return d
+HARNESSES.append(dict(COMMON, name="parse_bytes", entry="h_parse_bytes", encoded=PARSE, checks="safety+", tiers={"quick": {"defines": {"L": 3, "HWLOC_VERIF_SYNTHETIC_MAX_DEPTH": 6}, "unwindset": short_uw(3), "unwind": 8}, "thorough": {"defines": {"L": 5, "HWLOC_VERIF_SYNTHETIC_MAX_DEPTH": 8}, "unwindset": short_uw(5), "unwind": 10, "timeout": 6000}},
                       bounds="every NUL-terminated string of L arbitrary bytes (L = 3 quick, 5 thorough) in an exactly sized object", cost=60))
 HARNESSES.append(dict(COMMON, name="indexes_types", entry="h_indexes_types", defines={"HWLOC_VERIF_SYNTHETIC_MAX_DEPTH": 8}, encoded=PARSE, tiers={"quick": {}, "thorough": {}}, unwind=20,
                       bounds="pack:2 numa:2 core:2 pu:2(indexes=T1:T2:T3) with every choice of T1,T2,T3 among pack/numa/core (27 strings incl. invalid duplicates), chosen symbolically", cost=60))
